@@ -6,8 +6,12 @@ import (
 	"bytes"
 	"fmt"
 	"os"
+	"runtime"
+	"runtime/debug"
 	"sort"
 	"strings"
+	"sync"
+	"sync/atomic"
 
 	"golang.org/x/perf/internal/verifh/hx"
 )
@@ -70,6 +74,15 @@ func schedCase(id int, dir string, c *Case, args []string, run *Run) {
 		if again.Err != "" || !bytes.Equal(again.text, run.text) || !bytes.Equal(again.csv, run.csv) || !bytes.Equal(again.errCSV, run.errCSV) {
 			inproc = 0
 		}
+	}
+	// in-process schedule perturbation: ToTables on the SAME Builder, sequentially, under varying
+	// GOMAXPROCS (which also changes the fan-out limit 2*GOMAXPROCS), GC pressure and competing
+	// busy goroutines that yield in a tight loop
+	if pr := perturb(run); pr.runs > 0 {
+		if pr.distinct != 1 {
+			inproc = 0
+		}
+		hx.Printf("info %d perturb runs=%d settings=%d distinct_outputs=%d max_goroutines=%d cells=%d\n", id, pr.runs, pr.settings, pr.distinct, pr.maxG, pr.cells)
 	}
 	hx.Printf("obs %d sched same=%d\n", id, inproc)
 
@@ -232,4 +245,88 @@ func compareCells(a, b map[string]csvCell) string {
 		}
 	}
 	return ""
+}
+
+type perturbResult struct {
+	runs, settings, distinct, maxG, cells int
+}
+
+// perturb re-runs the real ToTables on the Builder of this case. Completion orders of the
+// per-cell goroutines cannot be logged without replacing builder.go (the code under test) —
+// no callback, interface or variable of ours is reached from inside the goroutines — so the
+// diversity of schedules is recorded indirectly: settings tried, peak number of live
+// goroutines seen by a sampler, and the number of distinct outputs (must be 1).
+func perturb(run *Run) perturbResult {
+	var pr perturbResult
+	if run.builder == nil {
+		return pr
+	}
+	procs := []int{1, 2, 4}
+	gcs := []int{100}
+	reps := 1
+	if os.Getenv("VERIF_TIER") == "thorough" {
+		procs = []int{1, 2, 3, 4, 8, 16, 32}
+		gcs = []int{1, 100, -1}
+		reps = 3
+	}
+	for _, t := range run.tables.Tables {
+		pr.cells += len(t.Cells)
+	}
+	outputs := map[string]bool{}
+	oldProcs := runtime.GOMAXPROCS(0)
+	oldGC := debug.SetGCPercent(100)
+	defer runtime.GOMAXPROCS(oldProcs)
+	defer debug.SetGCPercent(oldGC)
+	for _, p := range procs {
+		for _, g := range gcs {
+			pr.settings++
+			for rep := 0; rep < reps; rep++ {
+				runtime.GOMAXPROCS(p)
+				debug.SetGCPercent(g)
+				var stop atomic.Bool
+				var wg sync.WaitGroup
+				// competing goroutines: rep 0 none, rep 1 a few yielders, rep 2 many
+				noise := []int{0, 2, 4 * p}[rep%3]
+				for i := 0; i < noise; i++ {
+					wg.Add(1)
+					go func() {
+						defer wg.Done()
+						x := 0
+						for !stop.Load() {
+							x++
+							if x%64 == 0 {
+								runtime.Gosched()
+							}
+						}
+					}()
+				}
+				var maxG atomic.Int64
+				wg.Add(1)
+				go func() {
+					defer wg.Done()
+					for !stop.Load() {
+						if n := int64(runtime.NumGoroutine()); n > maxG.Load() {
+							maxG.Store(n)
+						}
+						runtime.Gosched()
+					}
+				}()
+				tables := run.builder.ToTables(run.opts)
+				stop.Store(true)
+				wg.Wait()
+				if int(maxG.Load()) > pr.maxG {
+					pr.maxG = int(maxG.Load())
+				}
+				var text, csv, csvErr bytes.Buffer
+				tables.ToText(&text, false)
+				tables.ToCSV(&csv, &csvErr)
+				outputs[text.String()+"\x00"+csv.String()+"\x00"+csvErr.String()] = true
+				pr.runs++
+			}
+		}
+	}
+	// the reference output counts too
+	outputs[string(run.text)+"\x00"+string(run.csv)+"\x00"+string(run.errCSV[len(run.errText):])] = true
+	pr.distinct = len(outputs)
+	return pr
 }
